@@ -51,6 +51,10 @@ def check_layouts(ctx):
             fields.append(st)
     shape.match_stmts(ctx, "R12.1", CQ + ".CQMap.__init__:fields", fields,
                       ["self._dom = dom", "self._cod = cod", "self._udom = udom", "self._ucod = ucod"], mod=CQ, node=fn, sig="init-fields", required="dom / cod are the CQ types given, _udom / _ucod their doubled layouts")
+    ad = m.func(CQ + ".CQMap.__add__")
+    ctx.analysed(CQ + ".CQMap.__add__")
+    shape.match(ctx, "R12.1", CQ + ".CQMap.__add__", ret_expr(ad.body[-1:]), "CQMap(self.dom, self.cod, self.array + other.array)", {ad.args.args[1].arg: "other"}, mod=CQ, node=ad, sig="cq-add",
+                required="maps of one type add entry by entry and keep their type (terms of a sum of circuits)")
     ut = m.func(CQ + ".CQMap.utensor")
     ctx.analysed(CQ + ".CQMap.utensor")
     shape.match(ctx, "R12.1", CQ + ".CQMap.utensor", ret_expr(ut.body), "Tensor(self._udom, self._ucod, self.array)", {}, mod=CQ, node=ut, sig="utensor")
@@ -481,6 +485,13 @@ def check_circuit_side(ctx):
                 ctx.ob("R12.6", "%s:%s" % (q, ast.unparse(c.func)), fwd, found=ast.unparse(c)[:100], required="an evaluation that forwards the caller's options forwards mixed=mixed as well (batches, sums, the backend shortcut)", mod=CIRC,
                        node=c, sig="mode:" + ast.unparse(c.func))
     ctx.need(n >= 4, "fewer than 4 forwarded evaluations in Circuit.eval / Sum.eval (%d)" % n)
+    # swaps of two qubits (two bits) are pure boxes, a swap of a bit and a qubit is not: a pure circuit stays pure with swaps in it
+    sw = m.func(CIRC + ".Swap.__init__")
+    ctx.analysed(CIRC + ".Swap.__init__")
+    bx = next((c for c in ast.walk(sw) if isinstance(c, ast.Call) and ast.unparse(c.func) == "Box.__init__"), None)
+    mk = next((k.value for k in bx.keywords if k.arg == "is_mixed"), None) if bx is not None else None
+    shape.match(ctx, "R12.6", CIRC + ".Swap.__init__:is_mixed", mk, ["left != right", "not left == right"], {sw.args.args[1].arg: "left", sw.args.args[2].arg: "right"}, mod=CIRC, node=sw, sig="swap-mixed",
+                required="mixed exactly when the two wires are of different kinds")
     # a sum is evaluated in one mode: mixed as soon as one term is, so that the results can be added
     se = m.func(CIRC + ".Sum.eval")
     md = next((s.value for s in se.body if isinstance(s, ast.Assign) and ast.unparse(s.targets[0]) == "mixed"), None)
